@@ -46,7 +46,7 @@ class Case:
         return "\n".join(["case %s" % self.name.replace("\n", " ")] + self.cfg + ["load"] + self.anns + ["rt %s %s" % (m, ver), "end"]) + "\n"
 
 
-def corpus_cases():
+def corpus_cases(scratch=None):
     out = []
     d = os.path.join(C.VERIF, "corpus", "c05")
     for n in sorted(os.listdir(d)) if os.path.isdir(d) else []:
@@ -58,16 +58,21 @@ def corpus_cases():
             if not l or l.startswith("#"):
                 continue
             l = l.replace("{REPO}", C.REPO).replace("{CORPUS}", d)
+            m = re.search(r"\{SNAP:([^}]+)\}", l)
+            if m:
+                if scratch is None:
+                    continue
+                l = l.replace(m.group(0), scratch.unpack(os.path.join(C.REPO, "tests/hwloc", m.group(1))))
             (anns if l.startswith("ann ") else cfg).append(l)
         out.append(Case("corpus:" + n, "corpus", cfg, anns, ["corpus"]))
     return out
 
 
-def make_cases(run):
+def make_cases(run, scratch=None):
     rng = run.rng
     quick = run.tier == "quick"
-    cases = corpus_cases()
-    nsyn = 60 if quick else 1500
+    cases = corpus_cases(scratch)
+    nsyn = 50 if quick else 600
     for i in range(nsyn):
         desc = S.gen_synthetic(rng, max_pus=32 if quick else 64)
         flags = 0
@@ -311,6 +316,9 @@ def judge_rt(r, ver, flags):
         if r["X"] != "X ok":
             v.add("crash-at-load:" + crash_key(r), "harness child ended with %s while loading the source" % r["X"])
         return v          # source not loadable: nothing to round-trip
+    if r["X"] != "X ok" and not r["rt"]:
+        v.skipped = "crash-while-annotating:" + crash_key(r)     # a modifying call died before any XML code ran (C02/C14/C15 territory)
+        return v
     if r["acheck"] == "Acheck abort":
         v.skipped = "original-not-wellformed"
         return v          # the annotated original is itself rejected by hwloc_topology_check (a C01/C02 matter)
@@ -333,21 +341,20 @@ def judge_rt(r, ver, flags):
     for b in bad:
         v.add("userdata-export-rc", b)
     if not r["reload"] or "rc=0" not in r["reload"]:
-        if mk - {"blank"}:
+        raw = []
+        for l in r["AX"]:
+            if l.startswith("DI ") or l.startswith("MA "):
+                nm = hexbytes(kv(l)["name"])
+                if nm is not None and not G.xml_safe(nm):
+                    raw.append(nm)
+        if raw:
+            v.add("reload-failed:unsanitized-distances-or-memattr-name", "hwloc could not load its own export (%s): name %r is written without hwloc__xml_export_safestrdup" % (r["reload"], raw[0]))
+        elif mk - {"blank"}:
             v.add("reload-failed:userdata-plain-markup", "hwloc could not load its own export (%s) with plain userdata containing %s" % (r["reload"], "/".join(sorted(mk))))
         elif mk:
             v.add("reload-failed:userdata-plain-blank", "hwloc could not load its own export (%s) with plain userdata made of blanks only" % r["reload"])
         else:
-            raw = []
-            for l in r["AX"]:
-                if l.startswith("DI ") or l.startswith("MA "):
-                    nm = hexbytes(kv(l)["name"])
-                    if nm is not None and not G.xml_safe(nm):
-                        raw.append(nm)
-            if raw:
-                v.add("reload-failed:unsanitized-distances-or-memattr-name", "hwloc could not load its own export (%s): name %r is written without hwloc__xml_export_safestrdup" % (r["reload"], raw[0]))
-            else:
-                v.add("reload-failed", "hwloc could not load its own export: %s" % r["reload"])
+            v.add("reload-failed", "hwloc could not load its own export: %s" % r["reload"])
         return v
     if r["bcheck"] != "Bcheck ok":
         v.add("reloaded-check-abort", "hwloc_topology_check() aborts on the reloaded topology")
@@ -394,6 +401,10 @@ def judge_rt(r, ver, flags):
                     sa, sb = a[f].split(","), b[f].split(",")
                     diff = [x.split(":")[0] for x, y in zip(sa, sb) if x != y] or ["len"]
                     v.add("obj-attr:ty%s:%s" % (a["ty"], "+".join(diff[:3])), "object gp=%s type %s attributes %s reloaded as %s" % (a["gp"], a["ty"], a[f], b[f]))
+                elif f == "ccs" and a["ty"] in ("14", "15") and b.get("par") not in ("-", "?", None) and B[int(b["par"])].get("ccs") == b.get("ccs") \
+                        and A[int(a["par"])].get("ccs") != a.get("ccs"):
+                    # the original's memory object does not carry its parent's complete_cpuset (offline CPUs); the import copies the parent's
+                    v.add("obj-field:ccs:memory-child-differs-from-parent-in-original", "object gp=%s type %s: complete_cpuset %s (parent has %s) reloaded as %s" % (a.get("gp"), a["ty"], a.get(f), A[int(a["par"])].get("ccs"), b.get(f)))
                 else:
                     v.add("obj-field:" + f, "object gp=%s type %s: %s=%s reloaded as %s" % (a.get("gp"), a["ty"], f, a.get(f), b.get(f)))
         if ver != "v3":
@@ -448,6 +459,11 @@ def judge_rt(r, ver, flags):
                 nm = hexbytes(d["name"])
                 return (nm,) + tuple(sorted((k, x) for k, x in d.items() if k != "name"))
             la, lb = [normn(l) for l in la], [normn(l) for l in lb]
+        if la != lb and tag in ("DI", "MA") and len(la) == len(lb):
+            # distances / memattr names are written unfiltered by the current code; accept the filtered form as well
+            la2 = [(G.safe_filter(x[0]),) + x[1:] for x in la]
+            if la2 == lb:
+                la = lb
         if la != lb:
             cls = "count" if len(la) != len(lb) else "value"
             first = next((i for i, (x, y) in enumerate(zip(la, lb)) if x != y), min(len(la), len(lb)))
@@ -467,7 +483,8 @@ def judge_rt(r, ver, flags):
             strip = lambda b: re.sub(rb"[ \t]*<support [^>]*/>\n", b"", b)
             ok = strip(x1b) == strip(x2b)
         if not ok:
-            v.add("second-export-differs" + (":after-userdata-cr" if any(k.startswith("userdata-bytes:plain-cr") for k, _ in v.items) else ""), "exporting the reloaded topology does not give the same bytes: %s" % first_diff(r))
+            v.add("second-export-differs" + (":after-userdata-loss" if any(k.startswith("userdata-bytes:plain") or k.startswith("userdata-count") for k, _ in v.items)
+                                             else ":after-ccs-normalisation" if any(k.startswith("obj-field:ccs:memory-child") for k, _ in v.items) else ""), "exporting the reloaded topology does not give the same bytes: %s" % first_diff(r))
     return v
 
 
@@ -623,6 +640,11 @@ def execute(exe, jobs, tmpdir):
                 if k < len(rs):
                     out[i] = rs[k]
                     out[i]["stderr"] = ""
+                    # memory: the exported bytes are needed only for the model comparison (nolibxml export) or when the second export differs
+                    if p[0] == "1" and rs[k]["X1"] and rs[k]["X2"] and " same=1" in rs[k]["X2"]:
+                        rs[k]["X1"] = rs[k]["X1"].split(" hex=")[0] + " hex=-"
+                    if p[0] == "1":
+                        rs[k]["M"] = []
             if rc != 0:
                 errs[idxs[0]] = "harness rc=%d: %s" % (rc, err[-2000:])
         # a child that died: run that case alone to attribute the sanitizer report to it
@@ -671,7 +693,7 @@ def check(run, replay=None):
                 anns = [l for l in body if l.startswith("ann ")]
                 jobs.append((Case("replay", "replay", cfg, anns), (p.group(1), p.group(2)), "buffer" if mode == "buffer" else "file", ver))
             else:
-                cases = make_cases(run) + snapshot_cases(run, scratch)
+                cases = make_cases(run, scratch) + snapshot_cases(run, scratch)
                 for c in cases:
                     if quick and c.kind != "corpus":
                         ps = rng.sample(PAIRINGS, 2)
